@@ -18,11 +18,11 @@ ASSUMPTIONS = [
 
 PROPS = {
     'C07': dict(
-        units=['nnum'],
+        units=['nnum', 'builtins'],
         not_covered='vectorisation wrappers, float/complex arithmetic values, int()/rational()/float() conversion builtins',
     ),
     'C06': dict(
-        units=['nint', 'nnum'],
+        units=['nint', 'nnum', 'builtins'],
         not_covered='lazy_is_prime / lazy_factorize / even / odd; literal parsing',
     ),
     'C12': dict(
